@@ -168,6 +168,8 @@ impl NodeDrive {
                         );
                     } else {
                         log::debug!("To reclame_space nothing need to be done on delete");
+                        // The key is not part of the new files, forget its (now stale) disk address
+                        db.purge_deleted_key(&key);
                     }
                 }
             }
